@@ -308,3 +308,345 @@ theorem run_nonempty (evs : List Event) : ∀ {jar : Jar}, (∀ k d, (k, d) ∈ 
     | resp host port cs => exact response_nonempty cs h host port
 
 end MitmVerif.C54
+
+namespace MitmVerif.C54
+
+/-! ### the jar as a function of the history (last write wins) -/
+
+theorem jarLookup_append (k' k : JKey) (d : Dict) (jar : Jar) :
+    jarLookup k' (jar ++ [(k, d)]) =
+      match jarLookup k' jar with | some x => some x | none => if k = k' then some d else none := by
+  induction jar with
+  | nil => simp [jarLookup]
+  | cons p rest ih =>
+    obtain ⟨pk, pd⟩ := p
+    simp only [List.cons_append, jarLookup]
+    split
+    · rfl
+    · exact ih
+
+theorem jarLookup_map_replace (k' k : JKey) (d' : Dict) (jar : Jar) :
+    jarLookup k' (jar.map (fun p => if p.1 = k then (p.1, d') else p)) =
+      if k' = k then (jarLookup k jar).map (fun _ => d') else jarLookup k' jar := by
+  induction jar with
+  | nil => simp [jarLookup]
+  | cons p rest ih =>
+    obtain ⟨pk, pd⟩ := p
+    simp only [List.map_cons]
+    by_cases h1 : pk = k
+    · subst h1
+      by_cases h2 : k' = pk
+      · subst h2; simp [jarLookup]
+      · have h2' : ¬ pk = k' := fun h => h2 h.symm
+        simp [jarLookup, h2, h2'] at ih ⊢; exact ih
+    · by_cases h2 : k' = k
+      · subst h2; simp [jarLookup, h1] at ih ⊢; exact ih
+      · simp only [h1, if_false, jarLookup, h2] at ih ⊢
+        split
+        · rfl
+        · exact ih
+
+theorem jarLookup_filter_ne (k' k : JKey) (jar : Jar) :
+    jarLookup k' (jar.filter (fun p => decide (p.1 ≠ k))) = if k' = k then none else jarLookup k' jar := by
+  induction jar with
+  | nil => simp [jarLookup]
+  | cons p rest ih =>
+    obtain ⟨pk, pd⟩ := p
+    by_cases h1 : pk = k
+    · subst h1
+      by_cases h2 : k' = pk
+      · subst h2; simp [List.filter, jarLookup] at ih ⊢; exact ih
+      · have h2' : ¬ pk = k' := fun h => h2 h.symm
+        simp [List.filter, jarLookup, h2, h2'] at ih ⊢; exact ih
+    · by_cases h2 : k' = k
+      · subst h2; simp [List.filter, h1, jarLookup] at ih ⊢; exact ih
+      · simp only [List.filter, h1, ne_eq, not_false_eq_true, decide_true, jarLookup, h2, if_false] at ih ⊢
+        split
+        · rfl
+        · exact ih
+
+theorem dictGet_dictSet (n' n v : Bytes) (d : Dict) :
+    dictGet n' (dictSet n v d) = if n' = n then some v else dictGet n' d := by
+  induction d with
+  | nil => by_cases h : n' = n <;> simp [dictSet, dictGet, h, eq_comm]
+  | cons p rest ih =>
+    obtain ⟨pn, pv⟩ := p
+    simp only [dictSet]
+    by_cases h1 : pn = n
+    · subst h1
+      by_cases h2 : n' = pn
+      · subst h2; simp [dictGet]
+      · have h2' : ¬ pn = n' := fun h => h2 h.symm
+        simp [dictGet, h2, h2']
+    · by_cases h2 : n' = n
+      · subst h2; simp [h1, dictGet] at ih ⊢; exact ih
+      · simp only [h1, if_false, dictGet, h2] at ih ⊢
+        split
+        · rfl
+        · exact ih
+
+theorem dictGet_filter_ne (n' n : Bytes) (d : Dict) :
+    dictGet n' (d.filter (fun p => decide (p.1 ≠ n))) = if n' = n then none else dictGet n' d := by
+  induction d with
+  | nil => simp [dictGet]
+  | cons p rest ih =>
+    obtain ⟨pn, pv⟩ := p
+    by_cases h1 : pn = n
+    · subst h1
+      by_cases h2 : n' = pn
+      · subst h2; simp [List.filter, dictGet] at ih ⊢; exact ih
+      · have h2' : ¬ pn = n' := fun h => h2 h.symm
+        simp [List.filter, dictGet, h2, h2'] at ih ⊢; exact ih
+    · by_cases h2 : n' = n
+      · subst h2; simp [List.filter, h1, dictGet] at ih ⊢; exact ih
+      · simp only [List.filter, h1, ne_eq, not_false_eq_true, decide_true, dictGet, h2, if_false] at ih ⊢
+        split
+        · rfl
+        · exact ih
+
+/-- the dict stored under the cookie's own key after an accepted Set-Cookie -/
+def newDict (cur : Option Dict) (c : Cookie) : Option Dict :=
+  match cur with
+  | none => if c.expired then none else some [(c.name, c.value)]
+  | some d =>
+    if c.expired then
+      (if d.filter (fun p => decide (p.1 ≠ c.name)) = [] then none else some (d.filter (fun p => decide (p.1 ≠ c.name))))
+    else some (dictSet c.name c.value d)
+
+theorem jarLookup_setCookie (jar : Jar) (host : Bytes) (port : Nat) (c : Cookie) (k' : JKey)
+    (hdm : implDomainMatch host (ckey c host port).domain = true) :
+    jarLookup k' (setCookie jar host port c) =
+      if k' = ckey c host port then newDict (jarLookup (ckey c host port) jar) c else jarLookup k' jar := by
+  unfold setCookie
+  simp only [hdm, if_true]
+  cases hl : jarLookup (ckey c host port) jar with
+  | none =>
+    by_cases hexp : c.expired = true
+    · simp only [hexp, if_true, newDict]
+      split
+      · rename_i hk; rw [hk, hl]
+      · rfl
+    · simp only [hexp, Bool.false_eq_true, if_false, newDict]
+      rw [jarLookup_append]
+      by_cases hk : k' = ckey c host port
+      · subst hk; simp [hl]
+      · have hk' : ¬ ckey c host port = k' := fun h => hk h.symm
+        simp only [hk, hk', if_false]
+        cases jarLookup k' jar <;> rfl
+  | some d =>
+    by_cases hexp : c.expired = true
+    · simp only [hexp, if_true, newDict]
+      by_cases hnil : d.filter (fun p => decide (p.1 ≠ c.name)) = []
+      · simp only [hnil, if_true]
+        rw [jarLookup_filter_ne]
+      · simp only [hnil, if_false]
+        rw [jarLookup_map_replace, hl]; rfl
+    · simp only [hexp, Bool.false_eq_true, if_false, newDict]
+      rw [jarLookup_map_replace, hl]; rfl
+
+theorem dictGet_newDict (cur : Option Dict) (c : Cookie) (n : Bytes) :
+    (newDict cur c).bind (dictGet n) =
+      if c.name = n then (if c.expired then none else some c.value) else cur.bind (dictGet n) := by
+  have hfl := dictGet_filter_ne n c.name
+  cases cur with
+  | none =>
+    simp only [newDict]
+    by_cases hexp : c.expired = true
+    · simp [hexp]
+    · simp only [hexp, Bool.false_eq_true, if_false, Option.bind_some, Option.bind_none, dictGet]
+  | some d =>
+    simp only [newDict]
+    by_cases hexp : c.expired = true
+    · simp only [hexp, if_true]
+      by_cases hnil : d.filter (fun p => decide (p.1 ≠ c.name)) = []
+      · simp only [hnil, if_true, Option.bind_none, Option.bind_some]
+        have := hfl d
+        rw [hnil] at this
+        simp only [dictGet] at this
+        by_cases hn : c.name = n
+        · simp [hn]
+        · have hn' : ¬ n = c.name := fun h => hn h.symm
+          simp only [hn, hn', if_false] at this ⊢
+          exact this
+      · simp only [hnil, if_false, Option.bind_some]
+        rw [hfl d]
+        by_cases hn : c.name = n
+        · simp [hn]
+        · have hn' : ¬ n = c.name := fun h => hn h.symm
+          simp [hn, hn']
+    · simp only [hexp, Bool.false_eq_true, if_false, Option.bind_some]
+      rw [dictGet_dictSet]
+      by_cases hn : c.name = n
+      · simp [hn]
+      · have hn' : ¬ n = c.name := fun h => hn h.symm
+        simp [hn, hn']
+
+/-- one Set-Cookie changes exactly the slot `(ckey, name)`, as `writeCookie` says -/
+theorem jarGet_setCookie (jar : Jar) (host : Bytes) (port : Nat) (c : Cookie) (k : JKey) (n : Bytes) :
+    jarGet (setCookie jar host port c) k n = writeCookie host port k n (jarGet jar k n) c := by
+  unfold writeCookie jarGet
+  by_cases hdm : implDomainMatch host (ckey c host port).domain = true
+  · rw [jarLookup_setCookie jar host port c k hdm]
+    simp only [hdm, Bool.true_and]
+    by_cases hk : k = ckey c host port
+    · subst hk
+      simp only [if_true, decide_true, Bool.true_and, dictGet_newDict]
+      by_cases hn : c.name = n <;> simp [hn]
+    · have hk' : ¬ ckey c host port = k := fun h => hk h.symm
+      simp [hk, hk']
+  · have : setCookie jar host port c = jar := by
+      unfold setCookie; simp [hdm]
+    rw [this]; simp [hdm]
+
+theorem jarGet_response (cs : List Cookie) : ∀ (jar : Jar) (host : Bytes) (port : Nat) (k : JKey) (n : Bytes),
+    jarGet (response jar host port cs) k n = cs.foldl (writeCookie host port k n) (jarGet jar k n) := by
+  induction cs with
+  | nil => intro jar host port k n; rfl
+  | cons c cs ih =>
+    intro jar host port k n
+    simp only [response, List.foldl_cons] at ih ⊢
+    rw [ih, jarGet_setCookie]
+
+theorem jarGet_run (evs : List Event) : ∀ (jar : Jar) (k : JKey) (n : Bytes),
+    jarGet (runJar jar evs) k n = lastWriteFrom (jarGet jar k n) evs k n := by
+  induction evs with
+  | nil => intro jar k n; rfl
+  | cons ev evs ih =>
+    intro jar k n
+    simp only [runJar, lastWriteFrom, List.foldl_cons] at ih ⊢
+    rw [ih]
+    cases ev with
+    | resp host port cs => simp only [stepJar]; rw [jarGet_response]
+    | req f h p pa => rfl
+
+/-! ### keys and cookie names stay unique (the association lists behave like Python dicts) -/
+
+def JarWF (jar : Jar) : Prop :=
+  (jar.map (·.1)).Nodup ∧ ∀ k d, (k, d) ∈ jar → (d.map (·.1)).Nodup
+
+theorem dictSet_names (n v : Bytes) (d : Dict) :
+    (dictSet n v d).map (·.1) = if n ∈ d.map (·.1) then d.map (·.1) else d.map (·.1) ++ [n] := by
+  induction d with
+  | nil => simp [dictSet]
+  | cons p rest ih =>
+    obtain ⟨pn, pv⟩ := p
+    simp only [dictSet]
+    by_cases h1 : pn = n
+    · subst h1; simp
+    · have h1' : ¬ n = pn := fun h => h1 h.symm
+      simp only [h1, if_false, List.map_cons, ih, List.mem_cons, h1', false_or]
+      split <;> simp
+
+theorem dictSet_nodup (n v : Bytes) (d : Dict) (h : (d.map (·.1)).Nodup) : ((dictSet n v d).map (·.1)).Nodup := by
+  rw [dictSet_names]
+  split
+  · exact h
+  · rename_i hn
+    rw [List.nodup_append]
+    refine ⟨h, by simp, ?_⟩
+    intro a ha b hb
+    simp at hb; subst hb
+    intro hab; subst hab; exact hn ha
+
+theorem setCookie_wf {jar : Jar} (h : JarWF jar) (host : Bytes) (port : Nat) (c : Cookie) :
+    JarWF (setCookie jar host port c) := by
+  unfold setCookie
+  simp only
+  split
+  · split
+    · rename_i hl
+      split
+      · exact h
+      · refine ⟨?_, ?_⟩
+        · rw [List.map_append, List.nodup_append]
+          refine ⟨h.1, by simp, ?_⟩
+          intro a ha b hb
+          simp at hb; subst hb
+          intro hab; subst hab
+          obtain ⟨p, hp, hpe⟩ := List.mem_map.mp ha
+          exact jarLookup_none_not_mem hl p.2 (by rw [← hpe]; exact hp)
+        · intro k d hkd
+          rcases List.mem_append.mp hkd with h1 | h1
+          · exact h.2 k d h1
+          · simp at h1; rw [h1.2]; simp
+    · rename_i d0 hl
+      have hd0 := h.2 _ _ (jarLookup_mem hl)
+      have hmapkeys : ∀ d', (jar.map (fun p => if p.1 = ckey c host port then (p.1, d') else p)).map (·.1) = jar.map (·.1) := by
+        intro d'
+        rw [List.map_map]
+        apply List.map_congr_left
+        intro p _
+        simp only [Function.comp]
+        split <;> rfl
+      split
+      · split
+        · refine ⟨(List.filter_sublist.map _).nodup h.1, ?_⟩
+          intro k d hkd
+          exact h.2 k d (List.mem_filter.mp hkd).1
+        · refine ⟨by rw [hmapkeys]; exact h.1, ?_⟩
+          intro k d hkd
+          obtain ⟨p, hp, hpe⟩ := List.mem_map.mp hkd
+          split at hpe
+          · simp at hpe; rw [← hpe.2]
+            exact (List.filter_sublist.map _).nodup hd0
+          · subst hpe; exact h.2 _ _ hp
+      · refine ⟨by rw [hmapkeys]; exact h.1, ?_⟩
+        intro k d hkd
+        obtain ⟨p, hp, hpe⟩ := List.mem_map.mp hkd
+        split at hpe
+        · simp at hpe; rw [← hpe.2]
+          exact dictSet_nodup _ _ _ hd0
+        · subst hpe; exact h.2 _ _ hp
+  · exact h
+
+theorem response_wf (cs : List Cookie) : ∀ {jar : Jar}, JarWF jar → ∀ (host : Bytes) (port : Nat),
+    JarWF (response jar host port cs) := by
+  induction cs with
+  | nil => intro jar h host port; exact h
+  | cons c cs ih =>
+    intro jar h host port
+    simp only [response, List.foldl_cons]
+    exact ih (setCookie_wf h host port c) host port
+
+theorem run_wf (evs : List Event) : ∀ {jar : Jar}, JarWF jar → JarWF (runJar jar evs) := by
+  induction evs with
+  | nil => intro jar h; exact h
+  | cons ev evs ih =>
+    intro jar h
+    simp only [runJar, List.foldl_cons]
+    refine ih (jar := stepJar jar ev) ?_
+    cases ev with
+    | req f h' p' pa => exact h
+    | resp host port cs => exact response_wf cs h host port
+
+theorem jarLookup_of_mem_nodup {jar : Jar} (h : (jar.map (·.1)).Nodup) {k : JKey} {d : Dict} (hm : (k, d) ∈ jar) :
+    jarLookup k jar = some d := by
+  induction jar with
+  | nil => simp at hm
+  | cons p rest ih =>
+    obtain ⟨pk, pd⟩ := p
+    simp only [List.map_cons, List.nodup_cons] at h
+    rcases List.mem_cons.mp hm with h1 | h1
+    · simp at h1; simp [jarLookup, h1.1, h1.2]
+    · have hne : ¬ pk = k := by
+        intro heq; subst heq
+        exact h.1 (List.mem_map.mpr ⟨(pk, d), h1, rfl⟩)
+      simp only [jarLookup, hne, if_false]
+      exact ih h.2 h1
+
+theorem dictGet_of_mem_nodup {d : Dict} (h : (d.map (·.1)).Nodup) {n v : Bytes} (hm : (n, v) ∈ d) :
+    dictGet n d = some v := by
+  induction d with
+  | nil => simp at hm
+  | cons p rest ih =>
+    obtain ⟨pn, pv⟩ := p
+    simp only [List.map_cons, List.nodup_cons] at h
+    rcases List.mem_cons.mp hm with h1 | h1
+    · simp at h1; simp [dictGet, h1.1, h1.2]
+    · have hne : ¬ pn = n := by
+        intro heq; subst heq
+        exact h.1 (List.mem_map.mpr ⟨(pn, v), h1, rfl⟩)
+      simp only [dictGet, hne, if_false]
+      exact ih h.2 h1
+
+end MitmVerif.C54
